@@ -95,6 +95,32 @@ def randoms(rng, count):
         if m <= 300:
             ops += ["sellers"]
         out += ed_ops(t, p, ops)
+    # several planted copies of the pattern of different quality, separated by junk long enough to push the running score far above the best hit
+    # so far (band/threshold logic: blocks dropped and re-activated), the best copy last or in the middle
+    for _ in range(max(12, count // 8)):
+        m = rng.choice([65, 70, 100, 128, 155, 200, 255, 300, 640])
+        sigma = rng.choice([4, 13])
+        p = [rng.randrange(sigma) for _ in range(m)]
+        t = []
+        ncop = rng.randint(2, 5)
+        quals = [rng.choice([0, 1, 2, 3, 6, 12]) for _ in range(ncop)]
+        for q in quals:
+            t += [rng.randrange(sigma) for _ in range(rng.choice([0, 30, 80, 200, 400]))]
+            c = list(p)
+            for _e in range(q):
+                k = rng.randrange(len(c))
+                r = rng.random()
+                if r < 0.4:
+                    c[k] = rng.randrange(sigma)
+                elif r < 0.7 and len(c) > 1:
+                    del c[k]
+                else:
+                    c.insert(k, rng.randrange(sigma))
+            t += c
+        t += [rng.randrange(sigma) for _ in range(rng.choice([0, 10, 100]))]
+        if len(t) < len(p):
+            t += [rng.randrange(sigma) for _ in range(len(p) - len(t))]
+        out += ed_ops(t, p, ["bpm_block", "bpm_block_dp", "dp_bpm_block"] + (["bpm_256", "dyn_256"] if m <= 255 else []))
     # lane-structured patterns: whole 64-symbol lanes (blocks) made of a symbol that does not occur in the text keep their delta words
     # all-ones, so a carry produced in a lower lane has to ripple through one, two or more full lanes (the classical stress of multi-word
     # adders: bpm_256's lane adder, bpm_block's carries between blocks); lane 0 is cut from the text so that it does produce carries
